@@ -94,6 +94,9 @@ type GenOpts struct {
 	ValueFor func(rng *Rand, g uint16, num byte) (v uint64, ok bool)
 	// SizeFor overrides the definition size of a field (ok=false: default).
 	SizeFor func(rng *Rand, g uint16, num byte) (size byte, ok bool)
+	// BigFileId: chance in 100 that the leading file_id carries several long unlisted fields
+	// (a first record of more than 512, sometimes more than 4096 bytes).
+	BigFileId int
 	// PostData may rewrite the field bytes of a data record after all fields were drawn
 	// (values that depend on each other, as a device writes them).
 	PostData func(rng *Rand, def *ref.Record, data [][]byte)
@@ -378,7 +381,7 @@ type PlanGen struct {
 }
 
 // fileIdRecords returns the definition and data record of the leading file_id.
-func fileIdRecords(rng *Rand, ft byte, local byte, arch byte, extra bool, unknown int) []ref.Record {
+func fileIdRecords(rng *Rand, ft byte, local byte, arch byte, extra bool, unknown int, big int) []ref.Record {
 	p := Profile()
 	def := ref.Record{IsDef: true, Local: local, Arch: arch, Global: 0}
 	def.Fields = append(def.Fields, ref.FieldDef{Num: 0, Size: 1, Base: 0x00})
@@ -411,6 +414,23 @@ func fileIdRecords(rng *Rand, ft byte, local byte, arch byte, extra bool, unknow
 			}
 		}
 	}
+	if big > 0 && rng.Chance(big, 100) {
+		// a leading file_id that is larger than any read-ahead a decoder might use for it:
+		// several long manufacturer-specific fields (the record alone exceeds 512 bytes or 4096)
+		n := 3 + rng.Intn(6)
+		if rng.Chance(1, 6) {
+			n = 17 + rng.Intn(4)
+		}
+		for k := 0; k < n && len(def.Fields) < 250; k++ {
+			num := byte(200 + k)
+			if p.Field(0, num) != nil {
+				continue
+			}
+			sz := 150 + rng.Intn(106)
+			def.Fields = append(def.Fields, ref.FieldDef{Num: num, Size: byte(sz), Base: 0x0D})
+			data.Data = append(data.Data, rng.Bytes(sz))
+		}
+	}
 	if extra {
 		o := &GenOpts{}
 		for _, pf := range p.ByMesg[0] {
@@ -435,7 +455,8 @@ func NewPlanGen(rng *Rand, o GenOpts) *PlanGen {
 			hs = 12
 		}
 	}
-	g.P = &ref.Plan{HeaderSize: hs, Proto: 0x10, ProfVer: 2115}
+	// profile version of the writing device: mostly the library's own, sometimes older, newer, extreme
+	g.P = &ref.Plan{HeaderSize: hs, Proto: 0x10, ProfVer: []uint16{2115, 2115, 2115, 2115, 2115, 2115, 100, 1602, 2140, 2215, 2216, 21158, 65535, 0}[rng.Intn(14)]}
 	if rng.Chance(1, 2) {
 		g.P.Proto = 0x20
 	}
@@ -450,7 +471,7 @@ func NewPlanGen(rng *Rand, o GenOpts) *PlanGen {
 	if rng.Chance(o.BigEndian, 100) {
 		arch = 1
 	}
-	recs := fileIdRecords(rng, o.FileType, local, arch, true, o.Unknown)
+	recs := fileIdRecords(rng, o.FileType, local, arch, true, o.Unknown, o.BigFileId)
 	if o.Compressed > 0 && local < 4 && rng.Chance(o.Compressed, 400) {
 		// the file_id record itself under a compressed timestamp header (no reference yet)
 		recs[1].Compressed = true
